@@ -228,8 +228,9 @@ def _expand(ctx, state):
         m2 = model.clone()
         h2 = hist + [label(action)]
         replay = {"engine": "seqx", "flavour": spec.flavour, "seed": seed, "history": h2, "actions": acts + [action]}
-        spec.apply(ctx, res, srv, cache, action, m2, replay)
+        rep_ = spec.apply(ctx, res, srv, cache, action, m2, replay)
         res["evals"] += 1
+        V.outcome(res, "%s:%s|live-keys=%d|addresses=%d" % (action["t"], classify(rep_) if isinstance(rep_, dict) else "?", len(m2.index), len(m2.content)))
         snap2 = fsutil.snapshot(cache)
         key = fsutil.canon(snap2) + "|" + m2.canon()
         if key in local_seen:
